@@ -155,3 +155,24 @@ def torn_variants(snapdir, effects, i, fractions=(0.0, 0.02, 0.5, 0.98)):
             with open(p, "wb") as f:
                 f.write(content)
         yield (f"torn@{n}/{len(new)}", build)
+
+
+def after_rename_variant(snapdir, effects, i):
+    """Crash state right AFTER the rename of effect i and before anything
+    else happens: the snapshot taken before the effect with the rename
+    applied to what was on disk at that moment.  If the renamed file was
+    still open with unflushed data (rename inside the `with` block), the
+    destination holds only what had reached the disk."""
+    eff = effects[i]
+    if eff["event"] != "os.rename" or "dst" not in eff:
+        return
+    base = os.path.join(snapdir, str(i))
+    if not os.path.exists(os.path.join(base, eff["path"])):
+        return
+
+    def build(dest):
+        shutil.copytree(base, dest, symlinks=True)
+        d = os.path.join(dest, eff["dst"])
+        os.makedirs(os.path.dirname(d), exist_ok=True)
+        os.replace(os.path.join(dest, eff["path"]), d)
+    yield ("after-rename", build)
